@@ -83,7 +83,8 @@ impl<K: PartialEq, V> VecMap<K, V> {
                 break;
             }
         }
-        idx.map(|i| self.items.remove(i).1)
+        // HashMap has no iteration order to preserve
+        idx.map(|i| self.items.swap_remove(i).1)
     }
     pub fn get(&self, k: &K) -> Option<&V> {
         for item in self.items.iter() {
@@ -115,5 +116,63 @@ impl<K: PartialEq, V> VecMap<K, V> {
     }
     pub fn keys(&self) -> impl Iterator<Item = &K> {
         self.items.iter().map(|(k, _)| k)
+    }
+}
+
+// --- chan: stand-in for tokio::sync::mpsc unbounded channels (substituted by the declared source
+// transform in algorithm/mod.rs): a FIFO queue with the same send/recv surface. Creating a real
+// tokio channel does not terminate in CBMC. Drops wake-ups/closing semantics (assumption A-chan).
+pub mod chan {
+    use std::collections::VecDeque;
+    use std::sync::{Arc, Mutex};
+    pub struct UnboundedSender<T> {
+        q: Arc<Mutex<VecDeque<T>>>,
+    }
+    pub struct UnboundedReceiver<T> {
+        q: Arc<Mutex<VecDeque<T>>>,
+    }
+    #[derive(Debug)]
+    pub struct SendError<T>(pub T);
+    impl<T> Clone for UnboundedSender<T> {
+        fn clone(&self) -> Self {
+            UnboundedSender { q: self.q.clone() }
+        }
+    }
+    pub fn unbounded_channel<T>() -> (UnboundedSender<T>, UnboundedReceiver<T>) {
+        let q = Arc::new(Mutex::new(VecDeque::new()));
+        (UnboundedSender { q: q.clone() }, UnboundedReceiver { q })
+    }
+    impl<T> UnboundedSender<T> {
+        pub fn send(&self, t: T) -> Result<(), SendError<T>> {
+            self.q.lock().unwrap().push_back(t);
+            Ok(())
+        }
+    }
+    impl<T> UnboundedReceiver<T> {
+        pub async fn recv(&mut self) -> Option<T> {
+            self.q.lock().unwrap().pop_front()
+        }
+        pub fn try_pop(&mut self) -> Option<T> {
+            self.q.lock().unwrap().pop_front()
+        }
+        pub fn len(&self) -> usize {
+            self.q.lock().unwrap().len()
+        }
+    }
+}
+
+// --- model_sort_by: stand-in for `<[T]>::sort_by` (substituted by the declared source transform in
+// select.rs): plain insertion sort with the same contract (stable, sorted by the comparator).
+// std's pattern-defeating/small-sort code does not terminate in CBMC even for 4 elements
+// (assumption A-sort: std's sort_by sorts).
+pub fn model_sort_by<T, F: FnMut(&T, &T) -> core::cmp::Ordering>(v: &mut [T], mut cmp: F) {
+    let mut i = 1;
+    while i < v.len() {
+        let mut j = i;
+        while j > 0 && cmp(&v[j - 1], &v[j]) == core::cmp::Ordering::Greater {
+            v.swap(j - 1, j);
+            j -= 1;
+        }
+        i += 1;
     }
 }
